@@ -480,52 +480,8 @@ func Main(id string, scenarios []*Scenario, assumptions []string) {
 // default schedule, to the same check: it reports violations through r and returns what it covered.
 type Extra func(r *vcommon.Run) (states, transitions, execs int64, rule string)
 
-// RacePass runs the -race build of this harness (built by tools/vcheck.py when the check has "race_pass": true)
-// free-running `reps` times per scenario and reports every distinct data race as a violation of class
-// "data-race:<function>". Silence is not a proof of race freedom; a report is always a real race.
-func RacePass(r *vcommon.Run, reps int) (runs int64) {
-	bin := os.Getenv("VERIF_RACE_BIN")
-	if bin == "" {
-		r.Note("race pass skipped: no -race build available")
-		return 0
-	}
-	cmd := exec.Command(bin)
-	cmd.Env = append(os.Environ(), fmt.Sprintf("VSCHED_RACEPASS=%d", reps), "GORACE=halt_on_error=0 history_size=3")
-	out, err := cmd.CombinedOutput()
-	text := string(out)
-	runs = int64(strings.Count(text, "RACEPASS-DONE") * reps)
-	if strings.Contains(text, "RACEPASS-HANG") {
-		r.Violation("free-running-hang", "a scenario did not complete within 2 minutes when run without the scheduler: "+firstLine(text[strings.Index(text, "RACEPASS-HANG"):]), text[max(0, len(text)-3000):])
-	}
-	for _, blk := range strings.Split(text, "WARNING: DATA RACE")[1:] {
-		// key: the first repository function of the first stack
-		fn := "unknown"
-		first := true
-		for _, line := range strings.Split(blk, "\n") {
-			line = strings.TrimSpace(line)
-			if first && strings.HasPrefix(line, "github.com/") {
-				first = false
-				if strings.Contains(line, "zzverif") {
-					// the racing access itself is in harness code: a harness bug, not a verdict
-					vcommon.Harness("data race inside the harness code (not a verdict):\n%s", vcommon.Short(blk, 2500))
-				}
-			}
-			if strings.HasPrefix(line, "github.com/bluenviron/mediamtx/internal/") && !strings.Contains(line, "zzverif") {
-				fn = strings.TrimPrefix(line, "github.com/bluenviron/mediamtx/internal/")
-				if i := strings.Index(fn, "("); i > 0 && strings.HasSuffix(fn, ")") {
-					fn = fn[:strings.LastIndex(fn, "(")]
-				}
-				break
-			}
-		}
-		r.Violation("data-race:"+fn, "the race detector reports a data race in a free-running execution of the harness bodies", vcommon.Short(blk, 3000))
-	}
-	if err != nil && !strings.Contains(text, "DATA RACE") && !strings.Contains(text, "RACEPASS-HANG") {
-		vcommon.Harness("race pass failed to run: %v\n%s", err, vcommon.Short(text, 2000))
-	}
-	r.Set("race_pass_runs", runs)
-	return runs
-}
+// RacePass: see vcommon.RacePass (kept here for the Engine S harnesses that call it through this package).
+func RacePass(r *vcommon.Run, reps int) (runs int64) { return vcommon.RacePass(r, reps) }
 
 // MainWith is Main plus an extra enumeration.
 func MainWith(id string, scenarios []*Scenario, assumptions []string, extra Extra) {
